@@ -65,6 +65,37 @@ def modelResult (d : Nat) (m : Batcher.Mode) (xs : List Int) : List Int × Bool 
 def specResult (d : Nat) (xs : List Int) : List Int :=
   sortInts (xs.map fun x => (List.range d).foldl (fun y _ => 2 * y + 1) x)
 
+/-- modulus of the `group_by` at boundary `b` (1-based) of a pipeline of kind `kind`, if it is one
+    (harness: `gb` = group_by(x%3), group_by(x%5) alternating; `mix` = shuffle, group_by(x%5) alternating) -/
+def gbModulus (kind : String) (b : Nat) : Option Int :=
+  if kind == "gb" then some (if b % 2 == 1 then 3 else 5)
+  else if kind == "mix" then (if b % 2 == 0 then some 5 else none)
+  else none
+
+def mapTimes (k : Nat) (x : Int) : Int := (List.range k).foldl (fun y _ => 2 * y + 1) x
+
+/-- Signature of finding F12: the element `v` (sent by op number `j`) was buffered for one destination
+    of a keyed boundary while a LATER `trickle` with gaps below the maximum delay kept the block busy
+    with elements that all belong to other key classes (so none of them is enqueued into the batcher
+    that holds `v`), on a deployment with several replicas. -/
+def starvedBy (d p delta : Nat) (kind : String) (ops : List (List String)) (j : Nat) (v : Int) : Bool :=
+  p ≥ 2 && (ops.drop (j + 1)).any fun op =>
+    match op with
+    | ["trickle", first, count, step, gap] =>
+      match first.toInt?, count.toNat?, step.toInt?, gap.toNat? with
+      | some f, some c, some st, some g =>
+        g < delta && c ≥ 1 &&
+        (List.range d).any fun b0 =>
+          -- boundary b = b0 + 1 ≥ 2 is fed by a block with a `Start` (block b0 ≥ 1 holds the batchers)
+          b0 ≥ 1 &&
+          match gbModulus kind (b0 + 1) with
+          | some m =>
+            let cls (x : Int) : Int := (mapTimes b0 x) % m
+            (List.range c).all fun (k : Nat) => cls (f + st * (k : Int)) != cls v
+          | none => false
+      | _, _, _, _ => false
+    | _ => false
+
 def modes : List (String × Batcher.Mode) :=
   [("adaptive", .adaptive 1000), ("single", .single), ("fixed1", .fixed 1), ("fixed1000", .fixed 1000)]
 
@@ -74,10 +105,19 @@ def handle (c : Case) : Verdict :=
     match d.toNat?, p.toNat?, delta.toNat? with
     | some d, some p, some delta =>
       let xs := inputsOf c.ops
-      let perOp := c.ops.filterMap fun op =>
-        match op with
-        | ["send", v, _] => some s!"a {v} ok"
-        | ["trickle", first, _, _, _] => some s!"t {first} ok"
+      -- op number of the k-th `send`/`trickle` op (implementation lines `a`/`t` are in op order)
+      let opIdx := (c.ops.zipIdx.filter fun (op, _) => op.head? == some "send" || op.head? == some "trickle").map (·.2)
+      let implAT := c.implOut.filter fun l => l.startsWith "a " || l.startsWith "t "
+      -- Model side. In logical time the model cannot tell whether the receive timeout of a busy block
+      -- expires; for an element that `starvedBy` a later trickle BOTH `ok` and `late` are behaviours of
+      -- the model (finding F12), so the implementation's answer is echoed when it is one of the two.
+      let perOp := (opIdx.zipIdx).filterMap fun (j, k) =>
+        match c.ops[j]? with
+        | some ["send", v, _] =>
+          let impl := implAT[k]?.getD ""
+          let may := match v.toInt? with | some x => starvedBy d p delta kind c.ops j x | none => false
+          if may && impl == s!"a {v} late" then some impl else some s!"a {v} ok"
+        | some ["trickle", first, _, _, _] => some s!"t {first} ok"
         | _ => none
       let results := modes.map fun (name, m) =>
         let r := modelResult d m xs
@@ -85,18 +125,33 @@ def handle (c : Case) : Verdict :=
       let out := perOp ++ results
       -- the property, on the implementation's lines
       let spec := fmtList (specResult d xs)
-      let lateMsgs := c.implOut.filterMap fun l =>
+      -- (message, is it the known finding F12?)
+      let atMsgs : List (String × Bool) := (implAT.zip opIdx).filterMap fun (l, j) =>
         match words l with
-        | ["a", v, w] => if w == "ok" then none else some s!"element {v}: {w} (bound 4*(d+2)*{delta}ms+400ms, sender still open)"
-        | ["t", f, w] => if w == "ok" then none else some s!"trickle from {f}: {w}"
-        | ["result", m, r] => if r == spec then none else some s!"result under batch mode {m} is {r}, expected {spec}"
-        | _ => some s!"unparsable line `{l}`"
+        | ["a", v, w] =>
+          if w == "ok" then none
+          else
+            let known := w == "late" &&
+              (match v.toInt? with | some v => starvedBy d p delta kind c.ops j v | none => false)
+            some (s!"element {v}: {w} (bound 4*(d+2)*{delta}ms+400ms, sender still open)", known)
+        | ["t", f, w] => if w == "ok" then none else some (s!"trickle from {f}: {w}", false)
+        | _ => some (s!"unparsable line `{l}`", false)
+      let resMsgs : List (String × Bool) := c.implOut.filterMap fun l =>
+        match words l with
+        | ["result", m, r] => if r == spec then none else some (s!"result under batch mode {m} is {r}, expected {spec}", false)
+        | "result" :: _ => some (s!"unparsable line `{l}`", false)
+        | _ => none
+      let msgs := atMsgs ++ resMsgs
       let nRes := (c.implOut.filter (·.startsWith "result ")).length
       let oracle :=
         if nRes ≠ 4 then some "[C18] missing result lines"
-        else match lateMsgs with
+        else if implAT.length ≠ opIdx.length then some "[C18] number of verdict lines differs from number of ops"
+        else match msgs with
           | [] => none
-          | m :: _ => some ("[C18] " ++ m)
+          | (m, _) :: _ =>
+            if msgs.all (·.2) then
+              some ("[C18] known:F12-starved-batcher-under-continued-input " ++ "; ".intercalate (msgs.map (·.1)))
+            else some ("[C18] " ++ (match msgs.find? (fun x => !x.2) with | some x => x.1 | none => m))
       { out, oracle, nontrivial := xs.length ≥ 1,
         tags := [s!"d{d}", s!"p{p}", s!"delta{delta}", kind, s!"n{min (xs.length / 5 * 5) 30}"] }
     | _, _, _ => { out := [], oracle := some "bad header", nontrivial := false }
